@@ -145,6 +145,14 @@ CLAIMED['C10'] = dict(
          'Not covered: ICU rules; big-endian hosts (the other preprocessor branch of endian_gcc.hpp).',
     ref='5/C10')
 
+CLAIMED['C17'] = dict(
+    technique='abstract interpretation of the instantiated helper bodies over exact sets (separable sums of per-byte tables, decision diagrams), compared with the Unicode encoding table and the surrogate pair formula',
+    text='utf8_append_utf32 over all 2^32 arguments: exactly the well-formed encoding is appended for every scalar value, nothing is appended and false returned for surrogates and values above 0x10FFFF. '
+         'unhex_char over all 256 characters, unhex_string for every digit count up to the width of the result type (under its documented precondition). unescape_j per loop iteration over all '
+         '(escape, next escape present?, next escape): pairs combined by the UTF-16 formula and both consumed, other escapes encoded individually, exactly the lone surrogates rejected, next escape only read when present, stride 6. '
+         'unescape_c positional mapping, unescape_u/x digit range and result width.',
+    ref='5/C17')
+
 NOT_YET = 'check not built yet in this round (see DESIGN.md section 10 for the order of construction); no claim is made'
 
 NA_REASONS = {}
